@@ -4,7 +4,7 @@
 #  (1) applies and builds, (2) the demonstration PASSES without it and FAILS with it,
 #  (3) the existing test suite passes with it; then stores it under /verif/seeded/<id>/.
 set -u
-id=$1; src=$(readlink -f "$2"); pkg=$3; run=$4; tags=${5:-}
+id=$1; src=$(readlink -f "$2"); pkg=$3; run=$4; tags=${5:-}; extra=${6:-}
 export GOFLAGS=-mod=mod GOPROXY=off GOSUMDB=off GOTOOLCHAIN=local; unset GOWORK
 wt=$(mktemp -d /tmp/seedwt.XXXXXX); rmdir "$wt"
 git -C /repo worktree add --detach "$wt" HEAD >/dev/null 2>&1 || { echo "worktree failed"; exit 2; }
@@ -16,10 +16,10 @@ tagarg=""; [ -n "$tags" ] && tagarg="-tags $tags"
 out=/verif/seeded/$id; mkdir -p "$out"
 cd "$wt"
 for f in $demos; do cp "$src/$f" "$pkg/"; done
-go test $tagarg -vet=off -count=1 -timeout 600s -run "$run" ./$pkg/ > "$out/demo_without.txt" 2>&1; r0=$?
+go test $extra $tagarg -vet=off -count=1 -timeout 600s -run "$run" ./$pkg/ > "$out/demo_without.txt" 2>&1; r0=$?
 if ! git apply "$src/patch.diff"; then echo "$id: PATCH DOES NOT APPLY to $head"; exit 3; fi
 go build ./... > "$out/build.txt" 2>&1; rb=$?
-go test $tagarg -vet=off -count=1 -timeout 600s -run "$run" ./$pkg/ > "$out/demo_with.txt" 2>&1; r1=$?
+go test $extra $tagarg -vet=off -count=1 -timeout 600s -run "$run" ./$pkg/ > "$out/demo_with.txt" 2>&1; r1=$?
 for f in $demos; do rm -f "$pkg/$f"; done
 go test -vet=off -count=1 ./... > "$out/suite_with.txt" 2>&1; rs=$?
 cp "$src/patch.diff" "$out/patch.diff"; for f in $demos; do cp "$src/$f" "$out/$f.txt"; done
@@ -30,7 +30,7 @@ tail -c 600 "$out/suite_with.txt" > "$out/suite.tail"; mv "$out/suite.tail" "$ou
 echo "$id: base=$head demo_without_exit=$r0 build_exit=$rb demo_with_exit=$r1 suite_with_exit=$rs"
 ok=false; [ $r0 = 0 ] && [ $rb = 0 ] && [ $r1 != 0 ] && [ $rs = 0 ] && ok=true
 cat > "$out/confirm.json" <<EOF
-{"seed": "$id", "base_commit": "$head", "package": "$pkg", "demo_run": "go test $tagarg -vet=off -count=1 -timeout 600s -run '$run' ./$pkg/",
+{"seed": "$id", "base_commit": "$head", "package": "$pkg", "demo_run": "go test $extra $tagarg -vet=off -count=1 -timeout 600s -run '$run' ./$pkg/",
  "demo_without_change_exit": $r0, "build_with_change_exit": $rb, "demo_with_change_exit": $r1, "existing_suite_with_change_exit": $rs, "confirmed": $ok}
 EOF
 $ok && exit 0 || exit 1
